@@ -516,6 +516,8 @@ def build(spec, explicit=False, allow_forbidden=False):
             toc |= fmt.TOC_INTERLEAVED
         if layout == 'daqmx':
             toc |= fmt.TOC_DAQMX
+            if seg.get('toc_interleaved'):
+                toc |= fmt.TOC_INTERLEAVED        # files written by DAQmx state both flags; rows are interleaved either way
         if e == '>':
             toc |= fmt.TOC_BIGENDIAN
         raw_off = len(meta) + pad
